@@ -6,7 +6,7 @@
     orientation) accumulated in exactly the left-nested order of additions the
     code performs; [viterbi = rev viterbi_rev] is what the functions return. *)
 From Coq Require Import ZArith List Bool.
-From NS Require Import Model.Viterbi Model.InferWrite Proofs.Viterbi Proofs.InferWrite Proofs.InferMelody.
+From NS Require Import Model.Viterbi Model.InferWrite Proofs.Viterbi Proofs.InferWrite Proofs.InferMelody Proofs.InferAssert.
 Import ListNotations.
 Local Open Scope Z_scope.
 
@@ -27,6 +27,21 @@ Theorem C19_viterbi_optimal :
             le (score add d init cols (rev frames) p) (score add d init cols (rev frames) best) = true.
 Proof. exact @viterbi_optimal. Qed.
 Print Assumptions C19_viterbi_optimal.
+
+(** Tie-breaking is numpy's: every arg-max the recursion takes (back-pointers and
+    the final state) is the FIRST index attaining the maximum. *)
+Theorem C19_argmax_is_first_maximal_index :
+  forall (S : Type) (le : S -> S -> bool) (d : S),
+  (forall a, le a a = true) ->
+  (forall a b c, le a b = true -> le b c = true -> le a c = true) ->
+  (forall a b, le a b = false -> le b a = true) ->
+  forall l, l <> [] ->
+  let i := fst (argmax le d l) in let v := snd (argmax le d l) in
+  (i < length l)%nat /\ nth i l d = v /\
+  (forall k, (k < length l)%nat -> le (nth k l d) v = true) /\
+  (forall k, (k < i)%nat -> le v (nth k l d) = false).
+Proof. exact @argmax_first_index. Qed.
+Print Assumptions C19_argmax_is_first_maximal_index.
 
 (** Instance: integer log-likelihoods extended with -inf (= log 0, which both
     inference functions produce); the instance the correspondence runs execute. *)
@@ -143,6 +158,23 @@ Theorem C19_melody_notes_start_at_real_notes : forall notes total cols e0 frames
 Proof. exact melody_notes_start_at_real_notes. Qed.
 Print Assumptions C19_melody_notes_start_at_real_notes.
 
+(** The writer's [assert pitch == note_pitch] never fires on the output of
+    _melody_viterbi, for ANY likelihoods (even when every path has likelihood
+    zero and the arg-maxima degenerate to index 0), provided a sustain state has
+    transition log-probability -inf from every state other than the onset or
+    sustain state of its own pitch — the structure _melody_transition_distribution
+    builds.  States: 0 rest, 1..np onsets, np+1..2np sustains. *)
+Theorem C19_melody_assertion_never_fires : forall pitches cols e0 frames times total,
+  let np := length pitches in
+  let n := Datatypes.S (2 * np) in
+  length cols = n -> Forall (fun c => length c = n) cols ->
+  length e0 = n -> Forall (fun e => length e = n) frames ->
+  (forall i j, (i < n)%nat -> (j < n)%nat -> safe_step np i j = false -> tr None cols i j = None) ->
+  let path := viterbi_x (melody_init cols e0) cols frames in
+  write_melody None (combine (map (index_to_event pitches) path) times) total <> None.
+Proof. exact viterbi_melody_assert_safe. Qed.
+Print Assumptions C19_melody_assertion_never_fires.
+
 (** Witness that the end-of-sequence filter is needed (the defect repaired by
     notes/C19-fix-1.diff): without it a note sitting on the end of the sequence
     marks an onset in a frame that starts earlier. *)
@@ -186,3 +218,18 @@ Proof.
   split; [reflexivity|]. split; [reflexivity|]. split; reflexivity.
 Qed.
 Print Assumptions C19_nonvacuous.
+
+(** Non-vacuity of the assertion theorem: one pitch, rest -> sustain forbidden;
+    a likely path, and the degenerate case where every emission is log 0. *)
+Example C19_assertion_nonvacuous :
+  let cols := [[Some 0; Some (-2); Some (-2)]; [Some (-1); Some (-3); Some (-3)]; [None; Some 0; Some 0]] in
+  (forall i j, (i < 3)%nat -> (j < 3)%nat -> safe_step 1 i j = false -> tr None cols i j = None) /\
+  viterbi_x (melody_init cols [Some (-5); Some 0; None]) cols [[Some (-9); None; Some 0]; [Some 0; None; Some (-9)]]
+    = [1%nat; 2%nat; 0%nat] /\
+  write_melody None (combine (map (index_to_event [60]) [1%nat; 2%nat; 0%nat]) [0; 4; 8]) 12 = Some [mkM 0 8 60] /\
+  viterbi_x (melody_init cols [None; None; None]) cols [[None; None; None]] = [0%nat; 0%nat].
+Proof.
+  cbv zeta. split; [|split; [reflexivity | split; reflexivity]].
+  intros i j Hi Hj. do 3 (destruct i as [|i]; [do 3 (destruct j as [|j]; [cbn; congruence|]); Lia.lia|]). Lia.lia.
+Qed.
+Print Assumptions C19_assertion_nonvacuous.
